@@ -214,6 +214,13 @@ func genC04(g *Gen, i int) Group {
 		if i%10 == 9 && i%4 == 1 {
 			return g.aliasAfterBuildCase(i)
 		}
+		if i%10 == 9 {
+			// a result object refused after it had entered two members of one group: nothing of it may stay behind
+			g.forceBlock = true
+			gr := g.multiOutCase(i)
+			g.forceBlock = false
+			return gr
+		}
 		return g.multiOutCase(i)
 	}
 	var regs []*Reg
@@ -378,6 +385,16 @@ func genContainer(g *Gen, prop string, i int) Group {
 		h.MaxScopes = 6
 	}
 	regs := g.RegSet(cfg)
+	if prop == "C07" && i%7 == 5 {
+		return g.mixedGroupCase(i)
+	}
+	if (prop == "C01" || prop == "C06" || prop == "C08") && i%9 == 7 {
+		return g.optionalLateCase(i)
+	}
+	if i%4 == 1 {
+		// registration order is the caller's business: consumers before what they consume, too
+		g.rnd.Shuffle(len(regs), func(a, b int) { regs[a], regs[b] = regs[b], regs[a] })
+	}
 	if prop == "C18" && i%9 == 4 {
 		return g.embeddedBuiltinCase(i)
 	}
@@ -393,7 +410,7 @@ func genContainer(g *Gen, prop string, i int) Group {
 	if (prop == "C02" || prop == "C05" || prop == "C07" || prop == "C08" || prop == "C03") && i%11 == 9 {
 		return g.embeddedCase(i)
 	}
-	if (prop == "C10" || prop == "C14" || prop == "C12" || prop == "C15" || prop == "C11") && i%8 == 3 {
+	if (prop == "C10" || prop == "C14" || prop == "C12" || prop == "C15" || prop == "C11" || prop == "C18") && i%8 == 3 {
 		return g.multiOutCase(i)
 	}
 	if (prop == "C01" || prop == "C02" || prop == "C03" || prop == "C10" || prop == "C07") && i%8 == 6 {
@@ -1082,6 +1099,10 @@ func (g *Gen) multiOutCase(i int) Group {
 			m.Group = 1 + g.n(2)
 		}
 	}
+	if g.p(0.3) {
+		// the constructor takes built-ins: for a singleton they are the root scope's, whoever asks for an output later
+		m.Form.Params = []Param{{Dep: Dep{Ty: tCtx}}, {Dep: Dep{Ty: tScope}}}
+	}
 	outs := regOutputs(m)
 	allNil := false
 	if m.Form.Kind == "ctor" {
@@ -1494,6 +1515,63 @@ func (g *Gen) embeddedBuiltinCase(i int) Group {
 	}
 	ops = append(ops, Op{Kind: "close", P: 0, H: 1}, Op{Kind: "closeprovider", P: 0})
 	return Group{Cases: []Case{{Name: fmt.Sprintf("%d/embedded-builtins", i), Ops: ops}}}
+}
+
+// optionalLateCase (C01, C08): a consumer that takes a registered service through an `optional:"true"` field and is
+// registered *before* it (the service has a dependency of its own, so it cannot be built first by accident):
+// optional or not, the consumer is built after the service and receives that one instance.
+func (g *Gen) optionalLateCase(i int) Group {
+	tys := g.rnd.Perm(8)
+	life := g.life([3]int{3, 1, 1})
+	mk := func(l int, ps []Param, t int, inobj bool) *Reg {
+		r := &Reg{ID: g.nextRid, Life: l, Form: Form{Kind: "ctor", InObj: inobj, Params: ps, Rets: []int{t}}, Dyn: []int{t}, CFail: []bool{false}}
+		g.nextRid++
+		return r
+	}
+	base := mk(Singleton, nil, tys[0], false)
+	consumer := mk(life, []Param{{Dep: Dep{Ty: tys[1], Opt: true}}, {Dep: Dep{Ty: tys[0]}}}, tys[2], true)
+	late := mk(Singleton, []Param{{Dep: Dep{Ty: tys[0]}}}, tys[1], false)
+	regs := []*Reg{consumer, base, late}
+	if g.p(0.5) {
+		regs = []*Reg{base, consumer, late}
+	}
+	if g.p(0.4) {
+		// one more consumer of the consumer, registered first of all
+		regs = append([]*Reg{mk(life, []Param{{Dep: Dep{Ty: tys[2]}}}, tys[3], false)}, regs...)
+	}
+	ops := addOps(regs)
+	ops = append(ops, Op{Kind: "build"}, Op{Kind: "createscope", P: 0, Parent: 0})
+	for _, h := range []int{0, 1} {
+		for _, t := range []int{tys[2], tys[1], tys[0], tys[3]} {
+			ops = append(ops, Op{Kind: "resolve", P: 0, H: h, Ty: t})
+		}
+	}
+	ops = append(ops, Op{Kind: "closeprovider", P: 0})
+	return Group{Cases: []Case{{Name: fmt.Sprintf("%d/optional-late", i), Ops: ops}}}
+}
+
+// mixedGroupCase (C07): a group whose members have different lifetimes, in every order, consumed through a group field
+// by a singleton, a transient or a scoped service: Build refuses exactly when the consumer is not scoped and some
+// member - the first, a middle one or the last - is.
+func (g *Gen) mixedGroupCase(i int) Group {
+	t, grp := g.n(8), 1+g.n(2)
+	k := 2 + g.n(3)
+	var regs []*Reg
+	for j := 0; j < k; j++ {
+		regs = append(regs, &Reg{ID: g.nextRid, Life: g.life([3]int{2, 2, 2}), Form: Form{Kind: "ctor", Rets: []int{t}}, Dyn: []int{t}, CFail: []bool{false}, Group: grp})
+		g.nextRid++
+	}
+	consumer := &Reg{ID: g.nextRid, Life: g.life([3]int{2, 1, 2}), Form: Form{Kind: "ctor", InObj: true, Params: []Param{{Dep: Dep{Ty: t, Group: grp}}}, Rets: []int{(t + 1) % 8}}, Dyn: []int{(t + 1) % 8}, CFail: []bool{false}}
+	g.nextRid++
+	regs = append(regs, consumer)
+	if g.p(0.3) {
+		g.rnd.Shuffle(len(regs), func(a, b int) { regs[a], regs[b] = regs[b], regs[a] })
+	}
+	ops := addOps(regs)
+	ops = append(ops, Op{Kind: "build"}, Op{Kind: "createscope", P: 0, Parent: 0},
+		Op{Kind: "resolve", P: 0, H: 1, Ty: (t + 1) % 8}, Op{Kind: "resolvegroup", P: 0, H: 1, Ty: t, Group: grp},
+		Op{Kind: "resolve", P: 0, H: 0, Ty: (t + 1) % 8}, Op{Kind: "closeprovider", P: 0})
+	return Group{Cases: []Case{{Name: fmt.Sprintf("%d/mixed-group", i), Ops: ops}}}
 }
 
 // dupDepCase: one constructor that takes the same dependency twice (two positional parameters of one type, two
